@@ -315,6 +315,28 @@ def no_global_write(chk, program, rule='NO-GLOBAL-WRITE'):
     chk.ok(rule, 'package::hand-written-functions', file='nmea2000', line=0, found='no global statement, no mutation of a module-level name')
     chk.floor('functions_scanned', n, 1400)
 
+def _mutable_literal(v):
+    return isinstance(v, (ast.Dict, ast.List, ast.Set, ast.DictComp, ast.ListComp, ast.SetComp)) or \
+        (isinstance(v, ast.Call) and isinstance(v.func, ast.Name) and v.func.id in ('dict', 'list', 'set', 'bytearray', 'defaultdict', 'OrderedDict', 'deque', 'Counter'))
+
+def module_level_mutables(m):
+    out = set()
+    for n in m.tree.body:
+        if isinstance(n, ast.Assign) and _mutable_literal(n.value):
+            out |= {t.id for t in n.targets if isinstance(t, ast.Name)}
+        elif isinstance(n, ast.AnnAssign) and n.value is not None and _mutable_literal(n.value) and isinstance(n.target, ast.Name):
+            out.add(n.target.id)
+    return out
+
+def class_level_mutables(cdef):
+    out = set()
+    for n in cdef.body:
+        if isinstance(n, ast.Assign) and _mutable_literal(n.value):
+            out |= {t.id for t in n.targets if isinstance(t, ast.Name)}
+        elif isinstance(n, ast.AnnAssign) and n.value is not None and _mutable_literal(n.value) and isinstance(n.target, ast.Name):
+            out.add(n.target.id)
+    return out
+
 def instance_state(chk, program, rule='INSTANCE-STATE'):
     """all decoder / encoder state is created per instance in __init__; nothing else creates instance attributes later except the inventoried ones"""
     for mod, cname, allowed_late in (('decoder', 'NMEA2000Decoder', {'dump_TextIOWrapper'}), ('encoder', 'NMEA2000Encoder', {'sequence_counter'})):
@@ -326,9 +348,20 @@ def instance_state(chk, program, rule='INSTANCE-STATE'):
                 continue
             for n in ast.walk(fn):
                 if isinstance(n, ast.Attribute) and isinstance(n.ctx, ast.Store) and isinstance(n.value, ast.Name) and n.value.id == 'self':
-                    ok = n.attr in created and n.attr in allowed_late
-                    chk.check(ok, rule, f"{mod}.{q}::self.{n.attr}", file=m.rel(), line=n.lineno, func=q, expected=f"only {sorted(allowed_late)} rebound after construction (created in __init__)",
-                              found=n.attr)
+                    if n.attr in created and n.attr in allowed_late:
+                        chk.ok(rule, f"{mod}.{q}::self.{n.attr}", file=m.rel(), line=n.lineno, found=n.attr)
+                        continue
+                    # a store after construction is per-instance state (whether it may decide results is STATE-DEPS' question); what breaks isolation is
+                    # binding the attribute to an object other instances see too: a module-level or class-level object
+                    st = getattr(n, '_parent', None)
+                    rhs = st.value if isinstance(st, (ast.Assign, ast.AnnAssign)) and st.value is not None else None
+                    shared = None
+                    if isinstance(rhs, ast.Name) and rhs.id in module_level_mutables(m):
+                        shared = f"module-level {rhs.id}"
+                    elif isinstance(rhs, ast.Attribute) and isinstance(rhs.ctx, ast.Load) and ast.unparse(rhs.value) in (cname, 'type(self)', 'self.__class__') and rhs.attr in class_level_mutables(program.cls(mod, cname)):
+                        shared = f"class-level {ast.unparse(rhs)}"
+                    chk.check(shared is None, rule, f"{mod}.{q}::self.{n.attr}", file=m.rel(), line=n.lineno, func=q, expected='instance attributes are bound to objects of the instance (fresh, or handed in by the caller)',
+                              found=n.attr if shared is None else f"self.{n.attr} = {shared}: one object for every instance")
         chk.ok(rule, f"{mod}.{cname}::attributes-created-in-__init__", file=m.rel(), line=init.lineno, found=sorted(created))
 
 def state_deps(chk, program, rule='STATE-DEPS'):
